@@ -251,6 +251,12 @@ def run(ctx):
     rule_gates(ctx)
     rule_totality(ctx)
     rule_classification(ctx)
+    from .. import golden
+    ctx.rule("lowering", "every arm of the two lowering passes performs the audited construction (rules/golden_lowering.json, shared with "
+                         "C19): the invariants the validators test afterwards (closed root, no implicit block capture, stacks joined only "
+                         "at coproduct branches) are consequences of WHERE each sub-term is lowered / translated; a change of that is "
+                         "reported before a program exists that makes a validator fail")
+    golden.check(ctx, "lowering", "golden_lowering.json")
     ctx.assume("the validators themselves (BranchJoinValidator, SpsLowValidator, StackAnalyzer) are NOT analysed: that they establish the "
                "stated invariants is trusted; emitters are infallible by type (`Err(never) => match never {}`)")
     return {}
